@@ -393,7 +393,19 @@ def run(ctx):
                 if n >= 5 and 1 < k < n and ndesigns < n and len(ctx.samples) < 3:
                     ctx.sample(meta[-1])
 
-            # 3. binary tournaments on the ranked population
+            # 3. binary tournaments on the ranked population; in a third of the populations the two halves were
+            #    ranked separately by the real sorter (front numbers of a merged population: equal front numbers
+            #    no longer exclude dominance, which is what the comparator branch of select() is for)
+            merged = n >= 4 and rng.random() < 0.34
+            if merged:
+                saved = [(x.features["front_number"], x.features["crowding_distance"]) for x in pop]
+                half = n // 2
+                del calls[:]
+                selector.fast_nondominated_sorting(pop[:half])
+                selector.fast_nondominated_sorting(pop[half:])
+                for before, after in calls:
+                    add_crowding(before, after)
+                stats["tournament_merged_populations"] = stats.get("tournament_merged_populations", 0) + 1
             tape = RandomTape(rng)
             ops.random = tape
             try:
@@ -428,6 +440,9 @@ def run(ctx):
                         ctx.sample(meta[-1])
             finally:
                 ops.random = real_random
+            if merged:
+                for x, (fn, cd) in zip(pop, saved):
+                    x.features["front_number"], x.features["crowding_distance"] = fn, cd
 
             # 4. crowding_distance called directly on arbitrary sub-lists (dominated members, ties, any order)
             for _d in range(2):
